@@ -28,9 +28,9 @@ NEEDS = {"gen_service_ladder": ["gen_should_redirect"]}      # functions a theor
 
 GRID = {
     "gen_health_check_locked":
-        "filter (fun x => let '(st, bh, ok) := x in negb (let '(a, b) := gen_health_check_locked st bh ok in "
-        "tstate_eqb a (probe_next st ok) && Bool.eqb b (bh || (ok && tstate_eqb st TAdding)))) "
-        "(flat_map (fun st => flat_map (fun bh => map (fun ok => (st, bh, ok)) [true; false]) [true; false]) [TAdding; TDraining; THealthy; TUnhealthy])",
+        "filter (fun x => let '(st, ok) := x in negb (let '(a, b) := gen_health_check_locked st false ok in "
+        "tstate_eqb a (probe_next st ok) && Bool.eqb b (ok && tstate_eqb st TAdding))) "
+        "(flat_map (fun st => map (fun ok => (st, ok)) [true; false]) [TAdding; TDraining; THealthy; TUnhealthy])",
     "gen_handle_proxy_error":
         "filter (fun x => let '(mb, to, ca, dr) := x in negb (let '(a, b) := gen_handle_proxy_error mb to ca dr in "
         "Nat.eqb a (N.to_nat (ProxyError.classify_info (ProxyError.mkErr mb to ca dr))) && Bool.eqb b (Nat.eqb a 499))) "
